@@ -114,6 +114,14 @@ def pred_c01(T, inp):
         return f"tucan differs under relabeling/reordering: {s!r} vs {t!r}"
 
 
+def pred_c01_text(T, inp):
+    """two molfile descriptions of one molecule (atom lines, bond lines, indices, bond directions permuted)"""
+    a = tucan_of(T, T.read(inp["text_a"]))
+    b = tucan_of(T, T.read(inp["text_b"]))
+    if a != b:
+        return f"two molfile descriptions of the same molecule get different TUCAN strings: {a!r} vs {b!r}"
+
+
 def pred_c04(T, inp):
     ga = T.ga
     g = build(T, inp["atoms"], inp["edges"], extra=True)
@@ -617,7 +625,7 @@ def pred_c16(T, inp):
 
 
 PREDICATES = {
-    "c01": pred_c01, "c02_pair": pred_c02_pair, "c03": pred_c03, "c04": pred_c04, "c05": pred_c05, "c05_text": pred_c05_text,
+    "c01": pred_c01, "c01_text": pred_c01_text, "c02_pair": pred_c02_pair, "c03": pred_c03, "c04": pred_c04, "c05": pred_c05, "c05_text": pred_c05_text,
     "c06": pred_c06, "c07": pred_c07, "c08": pred_c08, "c09": pred_c09, "c09_tucan": pred_c09_tucan, "c10": pred_c10, "c11": pred_c11,
     "c12": pred_c12, "c13": pred_c13, "c15": pred_c15, "c16": pred_c16,
 }
@@ -733,6 +741,34 @@ def gen_pipeline(T, kind, tier, seed, budget, out: Outcome):
             if len(out.violations) >= 3:
                 return
     out.exhaustive = False
+
+
+def permuted_rendering(rnd, m: "molgen.Mol"):
+    """the same abstract molecule written with atom lines in another order (explicit, unordered indices), bond lines shuffled,
+    endpoints swapped"""
+    n = len(m.atoms)
+    order = list(range(n))
+    rnd.shuffle(order)
+    pos = {old: new for new, old in enumerate(order)}
+    atoms = [m.atoms[i] for i in order]
+    bonds = [((pos[i], pos[j], t) if rnd.random() < .5 else (pos[j], pos[i], t)) for i, j, t in m.bonds]
+    rnd.shuffle(bonds)
+    return molgen.Mol(atoms, bonds)
+
+
+def gen_c01_text(T, tier, seed, budget, out: Outcome):
+    rnd = random.Random(seed + 17)
+    t0 = time.time()
+    out.rule += (" | text level: abstract molecules (<= 7 atoms) rendered twice as V3000/V2000 with atom lines in different order, explicit unordered "
+                 "indices, shuffled bond lines and swapped endpoints; the two TUCAN strings must be equal")
+    for _ in range(120 if tier == "quick" else 4000):
+        if time.time() - t0 > budget or len(out.violations) >= 3:
+            return
+        m = molgen.rand_mol(rnd, 7, zero_values=False, p_bond=0.45)
+        m2 = permuted_rendering(rnd, m)
+        ta = molgen.render_v3000(rnd, m, extra_kw=False)
+        tb = molgen.render_v3000(rnd, m2, extra_kw=False)
+        out.run(T, "c01_text", {"text_a": ta, "text_b": tb}, (ta, tb))
 
 
 def gen_c02(T, tier, seed, budget, out: Outcome):
